@@ -137,8 +137,14 @@ class GenericGen:
                     vs.append(Variant(f"V{self.n}x{j}", "tuple", [f, Field(None, prim("bool"))]))
             vs.append(Variant(f"V{self.n}unit", "unit"))
             it.variants = vs
-            rep = r.choice(["external", "adjacent", "untagged"])
-            if rep == "adjacent":
+            rep = r.choice(["external", "adjacent", "untagged", "internal"])
+            if rep == "internal":
+                # (no tuple variants in an internally tagged enum)
+                for v in vs:
+                    if v.kind == "tuple":
+                        v.kind, v.fields = "newtype", v.fields[:1]
+                it.tag = "t"
+            elif rep == "adjacent":
                 it.tag, it.content = "t", "c"
             elif rep == "untagged":
                 it.untagged = True
@@ -189,6 +195,7 @@ class GenericGen:
         # instantiations
         arg_pool = [("prim", "i32"), ("prim", "String"), ("prim", "bool"), ("prim", "u64"), ("container", "Vec<u8>"),
                     ("container", "Option<i32>"), ("container", "std::collections::HashMap<String, bool>"), ("container", "(i32, String)"),
+                    ("container", "Result<i32, String>"), ("container", "Option<Vec<String>>"),
                     ("user", self.leaves[0].name), ("user", self.leaves[1].name), ("user", f"Vec<{self.leaves[2].name}>")]
         if self.inner:
             arg_pool.append(("generic", f"{self.r.choice(self.inner).name}<{self.leaves[0].name}>"))
